@@ -269,6 +269,19 @@ pub fn special_shapes(c: &mut Ctx) -> Vec<(String, String)> {
         let ns = c.assign(&format!("uncompress_subject {}", zs));
         if c.is_ok(&ns) { out.push(("node-under-node-shared-assertion".into(), ns)); }
     }
+    // ... and one whose inner node is as small as a node can be (known values only, seven bytes encoded), reached by the encrypting route
+    {
+        let k1 = c.assign("kv 1"); let k4 = c.assign("kv 4"); let k16 = c.assign("kv 16");
+        let a = c.assign(&format!("assertion {} {}", k4, k16));
+        let tiny = c.assign(&format!("add {} {}", k1, a));
+        let enc = c.assign(&format!("elide_set {} rem encrypt:{} {}", tiny, KEY2, tiny));
+        let extra3 = gen_assertion(c, &cfg, 0);
+        let ann = c.assign(&format!("add {} {}", enc, extra3));
+        let two = c.assign(&format!("decrypt_subject {} {}", ann, KEY2));
+        if c.is_ok(&two) { out.push(("tiny-node-under-node".into(), two.clone()));
+            let p = gen_leaf(c, &cfg); let oa = c.assign(&format!("assertion {} {}", p, two)); let s9 = gen_leaf(c, &cfg); let h9 = c.assign(&format!("add {} {}", s9, oa));
+            if c.is_ok(&h9) { out.push(("object-tiny-node-under-node".into(), h9)); } }
+    }
     // an object that is a wrapped node with an obscured part
     if let Some((name, first)) = out.first().cloned() { let w = c.assign(&format!("wrap {}", first)); let p = gen_leaf(c, &cfg); let a = c.assign(&format!("assertion {} {}", p, w)); let s = gen_leaf(c, &cfg); let h = c.assign(&format!("add {} {}", s, a)); if c.is_ok(&h) { out.push((format!("object-wrapping-{}", name), h)); } }
     for (n, _) in &out { c.count(&format!("special:{}", n)); }
